@@ -94,7 +94,14 @@ def generate(seed, prop):
     rng = rng_for(seed)
     n_rec = rng.randint(2, 6)
     any_big = rng.random() < (0.3 if prop == "C09" else 0.12)
+    many = prop == "C03" and rng.random() < 0.03          # hundreds of (short) recordings in one call are legal too
+    if many:
+        n_rec, any_big = rng.randint(257, 300), False
     recs = [draw_record(rng, any_big and rng.random() < 0.5) for _ in range(n_rec)]
+    if many:
+        for r in recs:
+            r["n"] = rng.randint(40, 90)
+            r["rate"] = rng.choice([100, 100, 100, 200])
     if rng.random() < 0.6:                                  # deliberate duplicates of a time step
         for r in recs[1:]:
             if rng.random() < 0.5:
@@ -142,6 +149,9 @@ def generate(seed, prop):
         if rng.random() < 0.35:
             middle = {"op": "process_bad", "recs": b[::-1], "s": k, "kind": "nan_last"}    # the long call fails part-way
         ops[pos:pos] = [{"op": "process", "recs": a, "s": k, "own": True}, middle, {"op": "repeat", "which": 0}]
+    if many:
+        ops = [{"op": "process", "recs": rng.sample(range(n_rec), n_rec) if rng.random() < 0.5 else list(range(n_rec)),
+                "s": rng.randrange(n_set), "own": False, "as_tuple": False}]
     if not any(o["op"] == "process" for o in ops):
         ops.insert(0, draw_op(rng, "process", n_rec, n_set, own))
     return {"machine": "batch", "property": prop, "run_seed": int(seed),
@@ -349,7 +359,12 @@ def oracle_c03(ctx, st, op, records, settings, spec, res, exc):
     mism = []
     for kept in cand:
         bad = None
-        for r, i in enumerate(kept):
+        rows_to_check = list(enumerate(kept))
+        if len(rows_to_check) > 24:                    # many rows: the first, the last and a spread of others
+            pick = set(range(4)) | set(range(len(kept) - 12, len(kept))) | set(range(0, len(kept), max(1, len(kept) // 8)))
+            rows_to_check = [rc for rc in rows_to_check if rc[0] in pick]
+            ctx.probe("many_rows_sampled")
+        for r, i in rows_to_check:
             solo = solo_rows(st, records[i], spec, n)
             if isinstance(solo, str):
                 continue
